@@ -8,6 +8,8 @@ import (
 	"encoding/hex"
 	"encoding/json"
 	"fmt"
+	"hash/fnv"
+	"math/rand"
 	"os"
 	"path/filepath"
 	"regexp"
@@ -431,7 +433,7 @@ func (c *Ctx) buildUnitsBase(gs []*gast.Grammar, flagSets [][]string, race bool,
 			b.Timeout = 8
 			for _, u := range grp {
 				opt := u.HasFlag("-optimize-parser")
-				b.Add(&batch.Pkg{Name: u.Pkg, Src: u.Gen.Stdout, Optimized: opt,
+				b.Add(&batch.Pkg{Name: u.Pkg, Src: u.Gen.Stdout, Optimized: opt, InitInput: u.InitInput(),
 					HasState: u.G.UsesState || !opt,
 					HasMemo:  !opt || (u.IsLR && u.HasFlag("-support-left-recursion"))})
 			}
@@ -584,4 +586,15 @@ func (bt *Built) Vet() map[string][]string {
 		mu.Unlock()
 	})
 	return out
+}
+
+// InitInput is the input the in-package harness parses while the package is being initialised: a
+// sentence of the grammar drawn from a generator seeded by the grammar text.
+func (u *Unit) InitInput() []byte {
+	if u.G == nil || len(u.G.Rules) == 0 {
+		return []byte("a")
+	}
+	h := fnv.New64a()
+	h.Write([]byte(u.Text))
+	return u.G.Sentence(rand.New(rand.NewSource(int64(h.Sum64()>>1))), u.G.Rules[0].Name, u.G.Alphabet(), 6)
 }
